@@ -235,6 +235,10 @@ func genLife(seed int64, allow map[string]bool) *Scenario {
 				hp.Inj = append(hp.Inj, Inj{At: "g:ugs.enter@closing", Ops: []Op{{Op: "setup", IDs: []string{"*"}}, {Op: "finishall"}, {Op: "sleep", Amt: 30}}})
 			}
 		}
+		if r.Intn(8) == 0 {
+			// the competition's level timer fires inside the application's listener of the opened event
+			hp.Inj = append(hp.Inj, Inj{At: "cb:opened", Ops: []Op{{Op: "blind", Blind: newBlind()}}})
+		}
 		for i, kk := 0, r.Intn(4); i < kk; i++ {
 			at := phases[r.Intn(len(phases))]
 			var ops []Op
@@ -381,8 +385,9 @@ func genHand(seed int64, allow map[string]bool) *Scenario {
 			hp.ThinkMs, hp.ThinkTurn = 2300, r.Intn(3)
 		}
 		if early != "" && h == 0 && raisy {
+			// open, 3-bet, everybody else calls, [he leaves], the opener 4-bets (policy "raisy", injection point "after3bet")
 			hp.Policy = "raisy"
-			hp.Inj = append(hp.Inj, Inj{At: "turn2", Ops: []Op{{Op: "leave", IDs: []string{early}}}})
+			hp.Inj = append(hp.Inj, Inj{At: "after3bet", Ops: []Op{{Op: "leave", IDs: []string{early}}}})
 		} else if early != "" && h == 0 {
 			hp.Inj = append(hp.Inj, Inj{At: []string{"turn0", "turn1", "blinds", "ready2"}[r.Intn(4)], Ops: []Op{{Op: "leave", IDs: []string{early}}}})
 		}
